@@ -74,7 +74,7 @@ def _close(a, b, rt=RT):
         return False
     with np.errstate(invalid="ignore"):
         d = np.abs(a - b)
-    ok = (d <= rt * (1 + np.abs(b))) | (a == b) | np.isnan(a)
+    ok = (np.isfinite(b) & (d <= rt * (1 + np.abs(b)))) | (a == b) | np.isnan(a)
     return bool(np.all(ok))
 
 
